@@ -71,6 +71,7 @@ def _run(repo: Repo, rep: Report, tier: str, only_completion: bool) -> None:
         check_message_reset(repo, rep)
         from .c16 import check_reader_presence
         check_reader_presence(repo, rep, "reader-bits")
+        check_every_pdv_classified(repo, rep)
 
 def _declare(rep):
     rep.rule("overhead-count", "the number of fragments per part is ceil(length / payload size) on the command, data and file paths")
@@ -338,3 +339,32 @@ def check_message_reset(repo: Repo, rep: Report) -> None:
         if not ok:
             break
     rep.check(ok, "message-reset", fq, "complete message ... exit without `self.message = None`", "a path leaves receive_primitive after a message was completed without dropping the message object: the next message's fragments are appended to the finished one (its command set then decodes with stale elements, or not at all)", mod=dm, node=tests[0].ast, path=[f"L{x.line}" for x in w if x.ast is not None][-10:])
+
+
+def check_every_pdv_classified(repo: Repo, rep: Report, rule: str = "reader-bits") -> None:
+    """decode_msg looks at each PDV's control header to tell command from data and last from not-last. Every
+    iteration of its loop over the PDV list must reach that classification: an iteration that moves on before
+    it (a PDV holding only the control header 'has nothing to append') drops the last-fragment bit of a
+    zero-length last fragment, and the message never completes."""
+    mod = repo.mod("dimse_messages")
+    dec = repo.func("dimse_messages", "DIMSEMessage.decode_msg")
+    fq = "dimse_messages.DIMSEMessage.decode_msg"
+    cfg = CFG(dec, body=body_nodoc(dec), local_exc_only=True)
+    heads = [n for n in cfg.nodes if n.kind == "iter" and norm(n.ast.iter).endswith("presentation_data_value_list")]
+    if len(heads) != 1:
+        rep.defer(f"{fq}: the loop over the PDV list was not found")
+        return
+    h = heads[0]
+
+    def classifies(n):
+        return n.kind == "test" and "control_header_byte" in norm(n.ast.test) and "&" in norm(n.ast.test)
+
+    body_entry = [m for m, l in h.succ if l == "loop"]
+    ok, w = True, []
+    for s0 in body_entry:
+        if classifies(s0):
+            continue
+        ok, w = cfg.must_pass(s0, classifies, {h.id, cfg.exit.id})
+        if not ok:
+            break
+    rep.check(ok, rule, fq, "every PDV reaches the control-header tests", "an iteration of the PDV loop can end before the control header is looked at: the fragment - in particular a zero-length *last* fragment, legal under PS3.8 Annex E - is dropped together with its last-fragment bit, the message is never completed and the next message is appended to it", mod=mod, node=h.ast, path=[f"L{x.line}" for x in w if x.ast is not None][-8:])
